@@ -1189,14 +1189,15 @@ class Anisotropic(_Elastic):
             updates the compliance matrix (Hooke's law), by default True
         """
 
-        self.Need_Update()
-
         C_mandelP = self._Behavior(C, useVoigtNotation)
         self.C = C_mandelP
 
         if update_S:
             S_mandelP = np.linalg.inv(C_mandelP)
             self.S = S_mandelP
+
+        # the observers are told once the new matrices are stored: some of them read the law at once
+        self.Need_Update()
 
     def _Behavior(
         self, C: _types.FloatArray, useVoigtNotation: bool
